@@ -162,6 +162,161 @@ def recursion_shape(chk: Check) -> None:
                 chk.fail(rule, inst, "pyjelly.parse.decode.Decoder.decode_quoted_triple:recursion", f"a recursive call on the parse path does not descend into a strict sub-message of its argument (re-entries {max_reentry} for nesting {depth})")
 
 
+def _names(node: ast.AST) -> set[str]:
+    return {x.id for x in ast.walk(node) if isinstance(x, ast.Name)}
+
+
+def _is_const_step(st: ast.stmt, test_vars: set[str]) -> bool:
+    """i += 1 / i -= 2 / i = i + 1 on a variable of the loop condition: strict progress of a counter."""
+    if isinstance(st, ast.AugAssign) and isinstance(st.target, ast.Name) and st.target.id in test_vars:
+        return isinstance(st.op, (ast.Add, ast.Sub)) and isinstance(st.value, ast.Constant) and isinstance(st.value.value, int) and st.value.value != 0
+    if isinstance(st, ast.Assign) and len(st.targets) == 1 and isinstance(st.targets[0], ast.Name) and st.targets[0].id in test_vars:
+        v = st.value
+        return isinstance(v, ast.BinOp) and isinstance(v.op, (ast.Add, ast.Sub)) and isinstance(v.left, ast.Name) and v.left.id == st.targets[0].id and isinstance(v.right, ast.Constant) and v.right.value not in (0, None)
+    return False
+
+
+def _consumes(node: ast.AST, params: set[str]) -> bool:
+    """A call that reads from the input: a known consumer, or any call handed / invoked on a parameter or self attribute."""
+    for c in ast.walk(node):
+        if not isinstance(c, ast.Call):
+            continue
+        fname = c.func.attr if isinstance(c.func, ast.Attribute) else getattr(c.func, "id", "")
+        if fname in CONSUMERS:
+            return True
+        if fname in ("len", "isinstance", "bool", "min", "max", "int", "str", "getattr", "type"):
+            continue
+        involved = list(c.args) + ([c.func.value] if isinstance(c.func, ast.Attribute) else [])
+        for a_ in involved:
+            if _names(a_) & params:
+                return True
+            if any(isinstance(x, ast.Attribute) and isinstance(x.value, ast.Name) and x.value.id == "self" for x in ast.walk(a_)):
+                return True
+    return False
+
+
+def _all_paths_progress(body: list[ast.stmt], test_vars: set[str], params: set[str], has_exit: bool) -> bool:
+    """Must-progress analysis over the structured CFG of a loop body: every path that reaches the back edge (end of the
+    body or a `continue`) has executed a strict counter step, or an input-consuming call in a loop that also has an exit."""
+    bad = []
+
+    def step(st: ast.stmt) -> bool:
+        return _is_const_step(st, test_vars) or (has_exit and _consumes(st, params))
+
+    def walk(stmts: list[ast.stmt], prog: bool) -> list[bool]:
+        states = [prog]
+        for st in stmts:
+            if not states:
+                break
+            nxt: list[bool] = []
+            for p in states:
+                if isinstance(st, ast.If):
+                    p2 = p or (has_exit and _consumes(st.test, params))
+                    nxt += walk(st.body, p2) + walk(st.orelse, p2)
+                elif isinstance(st, ast.Continue):
+                    if not p:
+                        bad.append(st.lineno)
+                elif isinstance(st, (ast.Break, ast.Return, ast.Raise)):
+                    pass  # the path leaves the loop
+                elif isinstance(st, ast.Try):
+                    outs = walk(st.body, p)
+                    for h in st.handlers:
+                        outs += walk(h.body, p)
+                    outs = [o for o0 in outs for o in walk(st.orelse, o0)] if st.orelse else outs
+                    nxt += [o for o0 in outs for o in walk(st.finalbody, o0)] if st.finalbody else outs
+                elif isinstance(st, ast.With):
+                    nxt += walk(st.body, p)
+                elif isinstance(st, (ast.For, ast.While)):
+                    nxt.append(p)  # an inner loop may run zero times: no progress assumed
+                else:
+                    nxt.append(p or step(st))
+            states = sorted(set(nxt))
+        return states
+
+    ends = walk(body, False)
+    return not bad and all(ends)
+
+
+def _regex_blowup(pattern: str) -> str | None:
+    """Nested unbounded repetition whose iterations can split one run of characters in several ways
+    (catastrophic backtracking): an unbounded repeat whose body is an unbounded repeat plus only optional items."""
+    import re._parser as sre  # type: ignore[import-not-found]
+    from re._constants import MAXREPEAT  # type: ignore[import-not-found]
+
+    try:
+        tree = sre.parse(pattern)
+    except Exception:  # noqa: BLE001 - not a valid pattern: re.compile raises, nothing to analyse
+        return None
+
+    def unbounded(item) -> bool:
+        op, av = item
+        return str(op) in ("MAX_REPEAT", "MIN_REPEAT") and av[1] == MAXREPEAT
+
+    def optional(item) -> bool:
+        op, av = item
+        return str(op) in ("MAX_REPEAT", "MIN_REPEAT") and av[0] == 0
+
+    def items_of(sub) -> list:
+        return list(sub)
+
+    def walk(sub) -> str | None:
+        for item in items_of(sub):
+            op, av = item
+            name = str(op)
+            if name in ("MAX_REPEAT", "MIN_REPEAT"):
+                body = items_of(av[2])
+                # unwrap a single group
+                while len(body) == 1 and str(body[0][0]) == "SUBPATTERN":
+                    body = items_of(body[0][1][3])
+                if av[1] == MAXREPEAT:
+                    inner = [b for b in body if unbounded(b)]
+                    rest = [b for b in body if not unbounded(b)]
+                    if inner and all(optional(b) for b in rest):
+                        return f"unbounded repetition of a group that is itself an unbounded repetition{' plus optional parts' if rest else ''}"
+                r = walk(av[2])
+                if r:
+                    return r
+            elif name == "SUBPATTERN":
+                r = walk(av[3])
+                if r:
+                    return r
+            elif name == "BRANCH":
+                for alt in av[1]:
+                    r = walk(alt)
+                    if r:
+                        return r
+        return None
+
+    return walk(tree)
+
+
+def regex_rule(chk: Check) -> None:
+    """Every regular expression literal used on the parse path must be free of nested unbounded repetition."""
+    rule = "C17.TABLE.regex"
+    n = 0
+    for mod in PARSE_MODULES + ["pyjelly.options", "pyjelly.integrations.generic.generic_sink"]:
+        tree = chk.program.modules.get(mod)
+        if tree is None:
+            continue
+        for call in ast.walk(tree):
+            if isinstance(call, ast.Call) and isinstance(call.func, ast.Attribute) and isinstance(call.func.value, ast.Name) and call.func.value.id == "re" and call.args and isinstance(call.args[0], ast.Constant) and isinstance(call.args[0].value, str):
+                n += 1
+                pat = call.args[0].value
+                why = _regex_blowup(pat)
+                inst = f"{mod}: re.{call.func.attr}({pat!r})"
+                if why:
+                    chk.fail(rule, inst, f"{mod}:regex:{pat[:40]}", f"regular expression {pat!r} applied to input-controlled text has {why}: matching time is exponential in the input length")
+                else:
+                    chk.ok(rule, inst, None)
+    if n == 0:
+        chk.ok(rule, "no regular expressions on the parse path", {"patterns": 0}, nontrivial=False)
+    # positive control on every run: the rule must recognise the textbook cases
+    for pat, expect in ((r"^(a+)+$", True), (r"^[a-zA-Z]+([-_]?[a-zA-Z0-9]+)*$", True), (r"^[a-zA-Z]{1,8}(-[a-zA-Z0-9]{1,8})*$", False), (r"^(\w+\s)*$", False)):
+        got = _regex_blowup(pat) is not None
+        if got != expect:
+            raise AnalysisError(f"C17 regex rule self-test failed on {pat!r}: {got} != {expect}")
+
+
 def loop_progress(chk: Check) -> None:
     rule = "C17.PATH.loop-progress"
     n = 0
@@ -172,30 +327,18 @@ def loop_progress(chk: Check) -> None:
         for fn in ast.walk(tree):
             if not isinstance(fn, ast.FunctionDef):
                 continue
+            params = {a.arg for a in fn.args.args + fn.args.kwonlyargs + fn.args.posonlyargs} - {"self", "cls"}
             for node in ast.walk(fn):
                 if isinstance(node, ast.While):
                     n += 1
-                    calls = {c.func.attr if isinstance(c.func, ast.Attribute) else getattr(c.func, "id", "") for c in ast.walk(node.test) if isinstance(c, ast.Call)}
-                    # a call in the condition that is handed (or invoked on) a parameter of the function, i.e. the input
-                    # object itself, is taken to consume input: parse_length_prefixed(cls, inp), inp.read(1), helper(inp)
-                    params = {a.arg for a in fn.args.args + fn.args.kwonlyargs + fn.args.posonlyargs} - {"self", "cls"}
-                    for c in ast.walk(node.test):
-                        if isinstance(c, ast.Call):
-                            roots = [x.id for a_ in list(c.args) + ([c.func.value] if isinstance(c.func, ast.Attribute) else []) for x in ast.walk(a_) if isinstance(x, ast.Name)]
-                            self_attr = any(isinstance(x, ast.Attribute) and isinstance(x.value, ast.Name) and x.value.id == "self" for a_ in list(c.args) + ([c.func.value] if isinstance(c.func, ast.Attribute) else []) for x in ast.walk(a_))
-                            if (set(roots) & params or self_attr) and (getattr(c.func, "id", None) not in ("len", "isinstance", "bool", "min", "max")):
-                                calls.add("read")
                     inst = f"{mod}.{fn.name}: while {ast.unparse(node.test)[:60]}"
-                    if calls & CONSUMERS:
-                        chk.ok(rule, inst, {"consumes": sorted(calls & CONSUMERS)})
+                    has_exit = any(isinstance(x, (ast.Break, ast.Return, ast.Raise)) for b_ in node.body for x in ast.walk(b_))
+                    if _consumes(node.test, params):
+                        chk.ok(rule, inst, {"progress": "the condition consumes input"})
+                    elif _all_paths_progress(node.body, _names(node.test), params, has_exit):
+                        chk.ok(rule, inst, {"progress": "every path through the body steps a counter of the condition or consumes input (loop has an exit)"})
                     else:
-                        # a condition over loop-local state is fine if the body consumes and can break/return
-                        body_calls = {c.func.attr if isinstance(c.func, ast.Attribute) else getattr(c.func, "id", "") for b in node.body for c in ast.walk(b) if isinstance(c, ast.Call)}
-                        exits = any(isinstance(x, (ast.Break, ast.Return, ast.Raise)) for b in node.body for x in ast.walk(b))
-                        if body_calls & CONSUMERS and exits:
-                            chk.ok(rule, inst, {"consumes_in_body": sorted(body_calls & CONSUMERS)})
-                        else:
-                            chk.fail(rule, inst, f"{mod}.{fn.name}:while-without-progress", "a while loop on the parse path neither consumes input in its condition nor in its body with an exit")
+                        chk.fail(rule, inst, f"{mod}.{fn.name}:while-without-progress", "a while loop on the parse path has a path back to its condition on which neither a counter of the condition is stepped nor input is consumed (with an exit at end of input): malformed or truncated input can make it spin forever")
     if n == 0:
         raise AnalysisError("C17: no while loop found on the parse path (frame_iterator anchor vanished)")
     # termination at EOF: the frame iterator ends when the source is exhausted (0, 1, 3 frames)
@@ -229,3 +372,5 @@ def check(chk: Check) -> None:
     chk.part("iterator-nesting", lambda: iterator_nesting(chk))
     chk.part("recursion-shape", lambda: recursion_shape(chk))
     chk.part("loop-progress", lambda: loop_progress(chk))
+    chk.rule("C17.TABLE.regex", "regular expressions on the parse path have no nested unbounded repetition (catastrophic backtracking)", floor=1)
+    chk.part("regex", lambda: regex_rule(chk))
